@@ -143,7 +143,7 @@ func (w *World) verifyFunc(fn *ssa.Function, c *FuncContract) (res *FuncResult) 
 	env := fr.specEnv(st)
 	env.old = nil
 	for _, r := range c.Requires {
-		g, err := env.evalBool(r.Expr)
+		g, err := env.assuming().evalBool(r.Expr)
 		if err != nil {
 			vc.diag("%s: requires %q: %v", name, r.Text, err)
 			res.Err = "binding: " + err.Error()
@@ -159,7 +159,7 @@ func (w *World) verifyFunc(fn *ssa.Function, c *FuncContract) (res *FuncResult) 
 		}
 		for _, a := range cf.Axioms {
 			aenv := &SpecEnv{x: x, st: st, pkg: fn.Pkg.Pkg, vars: map[string]*Val{}}
-			g, err := aenv.evalBool(a.Expr)
+			g, err := aenv.assuming().evalBool(a.Expr)
 			if err != nil {
 				vc.diag("axiom %s: %v", a.Label, err)
 				continue
@@ -234,7 +234,7 @@ func (w *World) verifyLemma(cf *ContractFile, l *Clause) *FuncResult {
 	env := &SpecEnv{x: x, st: st, pkg: w.typesPkg(cf.PkgPath), vars: map[string]*Val{}}
 	// axioms of the same file are available
 	for _, a := range cf.Axioms {
-		g, err := env.evalBool(a.Expr)
+		g, err := env.assuming().evalBool(a.Expr)
 		if err != nil {
 			vc.diag("axiom %s: %v", a.Label, err)
 			continue
